@@ -238,7 +238,7 @@ def orders_of(series):
     return {}
 
 
-def new_stack(series, file_order=None, meta_filter=None):
+def new_stack(series, file_order=None, meta_filter=None, between=None):
     import dcmstack
     kw = orders_of(series)
     if meta_filter is not None:
@@ -261,4 +261,6 @@ def new_stack(series, file_order=None, meta_filter=None):
             else:
                 st.add_dcm(ds)
             st._verif_ids[id(st._files_info[-1][0])] = files[i]['id']
+            if between is not None:
+                between(st)
     return st, dss
